@@ -272,8 +272,8 @@ theorem solve_complete_stabilizer (hinv : InvComplete) (target : STab) (hg : tar
     (hnp : ∀ p, p < target.n → target.NotProd p) :
     ∃ s, solve target = .ok s ∧ SpanEq s.t (STab.zero (target.n + s.ne)) := by
   obtain ⟨ne, hdet⟩ := determineNEmitters_ok target hi hn
-  have i0 := rinv_init target hg hi ne hdet hnp
-  obtain ⟨s1, h1, i1⟩ := photonLoop_ok target.n ne target.n _ i0
+  have i0 := rinv_init (fun _ => False) target hg hi ne hdet (fun p hp _ => hnp p hp) (fun _ _ h => h.elim)
+  obtain ⟨s1, h1, i1⟩ := photonLoop_ok (fun _ => False) target.n ne target.n (fun _ _ h => h) _ i0
   obtain ⟨t2, brs2, piv2, hr2, he2⟩ := rref_ok_of_indep s1.t i1.indep
   have i2 := i1.cops t2 (rref_cops s1.t t2 brs2 hr2)
   have hn2 : t2.n = target.n + ne := i2.n_eq
@@ -337,5 +337,45 @@ theorem solve_complete_graph (hinv : InvComplete) (np : Nat) (adj : Nat → Nat 
     ∃ s, solve (graphSTab np adj) = .ok s ∧ SpanEq s.t (STab.zero (np + s.ne)) :=
   solve_complete_stabilizer hinv (graphSTab np adj) (graphSTab_good np adj hsym) (graph_indep np adj) hnp
     (fun p hp => graph_notProd np adj hirr p hp (hiso p hp))
+
+/-! ### targets with an isolated photon: `solve` raises IndexError (finding D3, as a theorem about the model) -/
+
+/-- any stabilizer target some of whose qubits are isolated `X` product qubits (set `I`, non-empty) while the others are not product
+    qubits: the loop raises IndexError at the first isolated photon it meets -/
+theorem solve_isolated_raises_stabilizer (I : Nat → Prop) (target : STab) (hg : target.Good) (hi : target.LinIndep) (hn : 0 < target.n)
+    (hnp : ∀ p, p < target.n → ¬ I p → target.NotProd p) (hx : ∀ p, p < target.n → I p → target.LitX p)
+    (hex : ∃ p, p < target.n ∧ I p) : solve target = .error .index := by
+  obtain ⟨ne, hdet⟩ := determineNEmitters_ok target hi hn
+  have i0 := rinv_init I target hg hi ne hdet hnp hx
+  have h1 := photonLoop_err I target.n ne target.n hex _ i0
+  have e0 : (List.range ne).foldl (fun (acc : STab) _ => (acc.insertQubit acc.n).norm) target = withEmitters target ne := rfl
+  unfold solve
+  rw [hdet]; simp only
+  rw [e0, h1]
+
+/-- **every graph with an isolated vertex makes the solver raise IndexError** (D3) -/
+theorem solve_isolated_raises_graph (np : Nat) (adj : Nat → Nat → Bool) (hsym : ∀ i j, adj i j = adj j i)
+    (hirr : ∀ i, adj i i = false) (hex : ∃ p, p < np ∧ ∀ j, j < np → adj p j = false) :
+    solve (graphSTab np adj) = .error .index := by
+  have hnp0 : 0 < np := by
+    obtain ⟨p0, hp0, _⟩ := hex
+    omega
+  apply solve_isolated_raises_stabilizer (fun p => ∀ j, j < np → adj p j = false) (graphSTab np adj)
+    (graphSTab_good np adj hsym) (graph_indep np adj) hnp0
+  · intro p hp hI
+    apply graph_notProd np adj hirr p hp
+    apply Classical.byContradiction
+    intro hno
+    apply hI
+    intro j hj
+    cases h : adj p j
+    · rfl
+    · exact absurd ⟨j, hj, h⟩ hno
+  · intro p hp hI
+    exact graph_litX np adj hsym p hp hI
+  · exact hex
+
+/-- the empty target: `determine_n_emitters` takes `max` of an empty list (ValueError) -/
+theorem solve_empty_raises (adj : Nat → Nat → Bool) : solve (graphSTab 0 adj) = .error .value := rfl
 
 end Graphiq.Solver
